@@ -100,9 +100,9 @@ LOOP_GROUPS = {"C01": (["delta"], "C01.source_scan_sync_is_model / source_scan_a
                "C11": (["hub", "hubput"], "C11.source_safe_join_is_model / source_conflict_name_is_model / source_conflict_name_under_root"),
                "C13": (["hubsync", "hubput"], "C13.source_push_loop_is_model / source_hub_sync_is_model / source_conflict_name_free_or_same"),
                "C20": (["codec"], "C20.source_write_message_is_model / source_read_header_is_model / source_read_message_is_model"),
-               "C12": (["wire"], "C12.source_read_frame_is_loop_round / source_read_frame_reserves_at_most_max / source_read_frame_stays_in_step"),
-               "C03": (["hubput"], "C03.source_handle_put_calls_are_solo_put / source_handle_delete_calls_are_solo_delete"),
-               "C10": (["hubput"], "C10.source_put_renames_only_verified_bytes / source_put_acknowledges_only_commits / source_put_reply_is_model")}
+               "C12": (["wire"], "C12.source_serve_is_model / source_read_frame_is_loop_round / source_read_frame_reserves_at_most_max / source_read_frame_stays_in_step"),
+               "C03": (["hubput", "hub"], "C03.source_handle_put_calls_are_solo_put / source_handle_delete_calls_are_solo_delete, C11.source_safe_join_is_model"),
+               "C10": (["hubput", "hub"], "C10.source_put_renames_only_verified_bytes / source_put_acknowledges_only_commits / source_put_reply_is_model")}
 
 
 def lake_build(modules):
